@@ -447,3 +447,30 @@ Proof.
   split; [repeat constructor|]. split; [exact f8_burst|]. split; [discriminate|].
   split; vm_compute; reflexivity.
 Qed.
+
+(* ------------------------------------------------------------------ *)
+(* non-vacuity: the hypotheses of the theorems are satisfiable and the functions compute what they should *)
+
+(* two frames (payload [5;6;7] then no payload) followed by one stray byte, on the trivial codec *)
+Example roundtrip_concrete :
+  recv_seq byte byte tgdec tgdec
+    (send byte byte tgenc tgenc 1 2 [5; 6; 7] ++ send byte byte tgenc tgenc 3 4 [] ++ [99]) [(3, true); (0, false)]
+  = [ROk 1 2 [5; 6; 7] true true (send byte byte tgenc tgenc 3 4 [] ++ [99]); ROk 3 4 [] false false [99]].
+Proof. vm_compute. reflexivity. Qed.
+
+(* a one-bit flip inside the payload is a burst, the field stays non-zero, and the receiver says checksum mismatch *)
+Example payload_flip_rejected :
+  burst_error (bits_of ([5; 6; 7] ++ le32 (crc32c [5; 6; 7]))) (bits_of ([5; 6; 135] ++ le32 (crc32c [5; 6; 7]))) /\
+  recv byte byte tgdec tgdec
+    (frame_prefix byte byte tgenc tgenc 1 2 3 ++ [5; 6; 135] ++ le32 (crc32c [5; 6; 7]) ++ [99]) 0 true = RErrCrc [99].
+Proof.
+  split.
+  - apply (burst_error_intro _ _ 23 [true] 32); vm_compute; try reflexivity. lia.
+  - vm_compute. reflexivity.
+Qed.
+
+(* a flipped bit in the length word: same extent for gob, header checksum catches it *)
+Example length_flip_rejected :
+  recv byte byte tgdec tgdec
+    (xor_at (send byte byte tgenc tgenc 1 2 [5; 6; 7]) 16 1) 0 true = RErrCrc ([5; 6; 7] ++ le32 (crc32c [5; 6; 7])).
+Proof. vm_compute. reflexivity. Qed.
